@@ -106,13 +106,15 @@ Definition dec_dtype (x : sexp) : dtype :=
   | SL [SI 0; n; fs] => DEnum (dec_ids n) (dec_strs fs)
   | SL [SI 1; n; lo; hi] => DSubInt (dec_ids n) (dec_Z lo) (dec_Z hi)
   | _ => DEnum [] [] end.
+Definition dec_ditype (x : sexp) : ditype :=
+  match x with SL [SI 2; c] => ITOther (dec_str c) | _ => ITType (dec_dtype x) end.
 Definition dec_endpoint (x : sexp) : dendpoint :=
   match x with SL [p; i] => (dec_str p, dec_opt dec_str i) | _ => ([], None) end.
 
 Fixpoint dec_ddecl (x : sexp) : ddecl :=
   match x with
   | SL [SI 0; n; SL body] => DNs (dec_ids n) ((fix go (l : list sexp) := match l with [] => [] | y :: r => dec_ddecl y :: go r end) body)
-  | SL [SI 1; n; ts; es] => DItf (dec_ids n) (dec_list dec_dtype ts) (dec_list dec_devent es)
+  | SL [SI 1; n; ts; es] => DItf (dec_ids n) (dec_list dec_ditype ts) (dec_list dec_devent es)
   | SL [SI 2; n; ps] => DComp (dec_ids n) (dec_list dec_dport ps)
   | SL [SI 3; n; ps] => DForeign (dec_ids n) (dec_list dec_dport ps)
   | SL [SI 4; n; ps; is_; bs] =>
